@@ -57,7 +57,7 @@ def cases(tier, seed):
     for k in range(12 if tier == "quick" else 80):
         out.append({"kind": "history", "cls": "history", "idx": idx, "seed": seed})
         idx += 1
-    for k, sc in enumerate(("zero_column", "zero_matrix", "dependent_columns", "zero_1x1", "zero_row", "dependent_rows_wide", "zero_later_column")):
+    for k, sc in enumerate(("zero_column", "zero_matrix", "dependent_columns", "zero_1x1", "zero_row", "dependent_rows_wide", "zero_later_column", "tiny_scale")):
         for rep in range(3 if tier == "quick" else 12):
             out.append({"kind": "singular", "cls": "singular:" + sc, "sing": sc, "idx": rep, "seed": seed})
     # exact (dyadic) deficiency that first shows at elimination step c, for every c and every shape kind:
@@ -345,6 +345,34 @@ def _singular(spec, ctx, R):
         m, n = 3, 5
         A = refq.randq(rng, m, n)
         A[2, :] = refq.randq(rng, 1, 1)[0, 0] * A[0, :]
+    elif sc == "tiny_scale":
+        # a well-conditioned matrix scaled EXACTLY by 2^p into the range where the squared modulus of a pivot is subnormal / underflows:
+        # the routine may refuse (its pivot threshold is absolute), but factors that come back have to reproduce A (judged after exact
+        # back-scaling of U)
+        m, n = [(4, 4), (5, 3), (3, 5), (2, 2), (6, 6)][spec["idx"] % 5]
+        A0 = refq.randq(rng, m, n)
+        for p2 in (-60, -500, -518, -524, -530, -533, -536, -540, -600):
+            A = A0 * 2.0 ** p2
+            for mode in (True, False):
+                site = f"tiny_scale_2^{p2}:{'3out' if mode else '2out'}"
+                try:
+                    with np.errstate(all="ignore"):
+                        res = D.quaternion_lu(A.copy(), return_p=mode)
+                except Exception as e:
+                    ctx.hit("singular:raised", type(e).__name__)
+                    ctx.check("singular_loud_or_exact", True, site=site)
+                    continue
+                ctx.hit("tiny_scale:returned")
+                L, U = res[0], res[1] * 2.0 ** (-p2)
+                lhs = refq.matmul(res[2], A0) if mode else A0
+                ok_fin = refq.is_finite(L) and refq.is_finite(U)
+                bound = (C * max(m, n) * refq.EPS * (refq.fro(L) * refq.fro(U) + refq.fro(A0)) + 1e-300) if ok_fin else 0.0
+                ctx.check("singular_loud_or_exact", refq.fro(lhs - refq.matmul(L, U)) if ok_fin else float("inf"), bound, site=site,
+                          detail={"shape": [m, n], "scale": f"2^{p2}"})
+                if ok_fin and L.size:
+                    ctx.check("multipliers_le_1", float(refq.absq(L).max()), 1.0 + 64 * refq.EPS, site=site)
+        ctx.hit("singular:evaluated")
+        return
     elif sc == "exact_step":
         A = _exact_deficient(rng, spec["m"], spec["n"], spec["c"], spec["idx"])
         m, n = A.shape
